@@ -247,3 +247,5 @@ renamed = path_depends_on = row_frame
 
 def nan_value():
     return float("nan")
+row_twin = row_frame
+row_frame_drop = row_frame
